@@ -25,7 +25,7 @@ def inv(db):
 def register(reg):
     reg.record("Entry", {"formula": STR, "smiles": STR, "Composition": COMP})
     reg.classdecl("RuleImputeManager", {"database": DB})
-    reg.specfun("DEC", [STR], Ty("map", STR, INT))   # value of RSMIDecomposer.decompose
+    reg.specfun("DEC", [STR], Ty("map", STR, INT), value_of="RSMIDecomposer.decompose")   # value of RSMIDecomposer.decompose
     reg.specfun("VALID", [STR], BOOL)                # RDKit parses the SMILES
     reg.contract(F, "RuleImputeManager.is_valid_smiles", params={"smiles": STR}, returns=BOOL, assumed=True, pure=True,
                  ensures=["result == VALID(smiles)"], note="Chem.MolFromSmiles(smiles) is not None", props=["C19"])
